@@ -313,7 +313,7 @@ def run(ctx):
                 "source position vector, transport type and per-destination order; every station replayed on the model; "
                 "non-trivial = a delivery was due; distinct by (kind, btp type, port, length, receiver)")
     rs.stack.patch_time()
-    n = 180 if ctx.tier == "quick" else 1500
+    n = 140 if ctx.tier == "quick" else 1500
     for k in range(n):
         n_st = ctx.rng.choice([2, 3, 4])
         topo = "line" if (k % 5 == 4 and n_st > 2) else "mesh"
